@@ -26,7 +26,7 @@ func init() {
 	register(&Rule{ID: "VD12", Min: 6, Run: ruleVD12,
 		Doc: "strict-decode-and-validate: in the JSON input parsers the success return is dominated by DisallowUnknownFields() on the decoder that decodes and by a second Decode returning io.EOF; in every command that parses JSON the Validate* nil edge dominates the first committing call"})
 	register(&Rule{ID: "VD13", Min: 5, Run: ruleVD13,
-		Doc: "plan-shape: the plan callback emits one new_epic and, per input task, one new_task whose State is the constant todo and whose EpicID is the epic event's ID; no claim/state emission; reply ids are the same values as the event ids; titles/bodies are the input strings"})
+		Doc: "plan-shape: the plan callback emits one new_epic and, per input task, one new_task whose State is the constant todo and whose EpicID is the epic event's ID; no claim/state emission; reply ids are the same values as the event ids; titles/bodies are the input strings of that very entry (a loop-carried text is not); a loop of the plan that emits events is left before its last entry only by failing the whole plan (entry-loop-runs-to-the-end)"})
 }
 
 // ------------------------------------------------------------------ VD8
@@ -1826,6 +1826,18 @@ func ruleVD13(c *Ctx) {
 		return
 	}
 	c.check(!siteLoops(epic), fn, "one-epic", c.Pos(epic.Call.Pos()), "exactly one epic event (not in a loop)", "the epic event is emitted in a loop")
+	// every entry is considered: a loop of the plan that emits events (tasks, or the edges of one task's `after` list) is
+	// left early only by failing the whole plan. A success return (or a break) from inside its body silently drops the
+	// entries not yet reached - the plan reports success with fewer tasks or edges than it names
+	for _, em := range c.emissions() {
+		if !inUnit[em.Fn] || !inCycle(em.Call.Block()) {
+			continue
+		}
+		typ := em.Types[0]
+		early := earlyLoopExits(c, em.Fn, em.Call.Block())
+		c.check(len(early) == 0, c.Name(em.Fn), "entry-loop-runs-to-the-end "+typ, c.Pos(em.Call.Pos()), "the loop around this emission is left early only by a failing return",
+			"the loop that emits "+typ+" events can be left before its last entry without failing the plan ("+strings.Join(early, "; ")+"): the entries after that point are dropped and the plan still reports success")
+	}
 	// task emission: inside the range loop over input.Tasks, no extra condition
 	c.check(siteLoops(task), fn, "task-per-entry", c.Pos(task.Call.Pos()), "task events are emitted in the loop over the input tasks", "new_task is not emitted per input entry")
 	c.check(constStr(task.Fields["State"]) == "todo" && constStr(epic.Fields["State"]) == "todo", fn, "tasks-start-todo", c.Pos(task.Call.Pos()), "State is the constant todo", "a planned item is created in a state other than todo")
@@ -1875,12 +1887,121 @@ func ruleVD13(c *Ctx) {
 	c.check(okText, fn, "text-is-input-verbatim", c.FnPos(cb), "titles and bodies are loads of the parsed input's string pointers (or \"\"), untransformed", "a title/body is transformed before being recorded: "+why)
 }
 
+// earlyLoopExits: the ways out of the innermost loop around blk that are neither the loop's own exit (an edge leaving from
+// its header: the range/condition test) nor a failing return: `return nil` or `break` inside the body.
+func earlyLoopExits(c *Ctx, f *ssa.Function, blk *ssa.BasicBlock) []string {
+	// innermost loop = the smallest strongly connected set containing blk: blocks that reach blk and are reached from it,
+	// taken inside the innermost header that dominates blk
+	fromBlk := reach(blk, nil, nil)
+	body := map[*ssa.BasicBlock]bool{}
+	for _, b := range f.Blocks {
+		if fromBlk[b] && reach(b, nil, nil)[blk] {
+			body[b] = true
+		}
+	}
+	body[blk] = true
+	// the header: the block of the loop entered from outside
+	var hdr *ssa.BasicBlock
+	for b := range body {
+		for _, p := range b.Preds {
+			if !body[p] && (hdr == nil || b.Index < hdr.Index) {
+				hdr = b
+			}
+		}
+	}
+	// an inner loop nested in an outer one: shrink to the blocks that stay inside without passing the outer header...
+	// (the SCC of blk already is the outermost loop containing it; restrict to the innermost by taking as header the
+	// dominating loop-head closest to blk)
+	for b := range body {
+		if b != hdr && b.Dominates(blk) && isLoopHead(b, body) && (hdr == nil || hdr.Dominates(b)) {
+			hdr = b
+		}
+	}
+	if hdr != nil {
+		inner := map[*ssa.BasicBlock]bool{hdr: true}
+		// blocks that reach blk... inside hdr's loop: dominated by hdr and able to come back to hdr
+		for b := range body {
+			if hdr.Dominates(b) && reachAvoiding(b, hdr, nil) {
+				inner[b] = true
+			}
+		}
+		body = inner
+	}
+	var out []string
+	seen := map[string]bool{}
+	for b := range body {
+		if b == hdr {
+			continue
+		}
+		for _, sblk := range b.Succs {
+			if body[sblk] {
+				continue
+			}
+			// where does this exit lead: only failing returns / panics are fine
+			for x := range reach(sblk, nil, map[*ssa.BasicBlock]bool{hdr: true}) {
+				if len(x.Instrs) == 0 {
+					continue
+				}
+				r, isRet := x.Instrs[len(x.Instrs)-1].(*ssa.Return)
+				if !isRet || x.Comment == "recover" || c.definitelyFails(f, r) {
+					continue
+				}
+				msg := "leaves the loop at " + c.Pos(lastPos(b)) + " and can end in the non-failing return at " + c.Pos(r.Pos())
+				if !seen[msg] {
+					seen[msg] = true
+					out = append(out, msg)
+				}
+			}
+		}
+	}
+	sort.Strings(out)
+	return out
+}
+
+func isLoopHead(b *ssa.BasicBlock, body map[*ssa.BasicBlock]bool) bool {
+	for _, p := range b.Preds {
+		if body[p] && b.Dominates(p) {
+			return true
+		}
+	}
+	return false
+}
+
+// reachAvoiding: from can reach target (in one or more steps).
+func reachAvoiding(from, target *ssa.BasicBlock, blocked map[*ssa.BasicBlock]bool) bool {
+	for _, s := range from.Succs {
+		if s == target || reach(s, nil, blocked)[target] {
+			return true
+		}
+	}
+	return false
+}
+
+func lastPos(b *ssa.BasicBlock) token.Pos {
+	for i := len(b.Instrs) - 1; i >= 0; i-- {
+		if p := b.Instrs[i].Pos(); p.IsValid() {
+			return p
+		}
+	}
+	return token.NoPos
+}
+
 // textIsInputLoad: v is *ptr where ptr is a field of the parsed input (Title/Body), or phi of that and "".
 func textIsInputLoad(v ssa.Value) bool { return textIsInputLoadE(v, nil) }
 
 // textIsInputLoadE: the same with an accessor's parameters bound to its call's arguments.
 func textIsInputLoadE(v ssa.Value, e env) bool {
+	return textIsInputLoadRec(v, e, map[ssa.Value]bool{})
+}
+
+func textIsInputLoadRec(v ssa.Value, e env, onPath map[ssa.Value]bool) bool {
 	v = strip(v)
+	if onPath[v] {
+		// a loop-carried value: the text recorded for this entry can be the one left over from an earlier entry
+		return false
+	}
+	onPath[v] = true
+	defer delete(onPath, v)
 	if cl, ok := v.(*ssa.Call); ok {
 		// an accessor such as GetBody() or stringOrEmpty(input.Body): every return is the field's string or ""
 		h := calleeOf(&cl.Call)
@@ -1894,7 +2015,7 @@ func textIsInputLoadE(v ssa.Value, e env) bool {
 			}
 		}
 		for _, r := range returnsOf(h) {
-			if len(r.Results) != 1 || !textIsInputLoadE(r.Results[0], e2) {
+			if len(r.Results) != 1 || !textIsInputLoadRec(r.Results[0], e2, onPath) {
 				return false
 			}
 		}
@@ -1916,7 +2037,7 @@ func textIsInputLoadE(v ssa.Value, e env) bool {
 		return constStr(x) == "" && x.Value != nil
 	case *ssa.Phi:
 		for _, ed := range x.Edges {
-			if !textIsInputLoadE(ed, e) {
+			if !textIsInputLoadRec(ed, e, onPath) {
 				return false
 			}
 		}
